@@ -135,8 +135,10 @@ def main(argv=None):
     for o in extra.get("obligations", []):
         obligations.append(o)
     import shutil
-    shutil.rmtree(os.path.join(VERIF, "replays", prop), ignore_errors=True)
-    os.makedirs(os.path.join(VERIF, "replays", prop), exist_ok=True)
+    RROOT = os.environ.get("PYVC_REPLAY_DIR")      # scratch runs (seeded changes, mutants) keep their replays out of /verif/replays
+    rrel = (lambda *parts: os.path.join(RROOT, *parts[1:])) if RROOT else (lambda *parts: os.path.join(*parts))
+    shutil.rmtree(os.path.join(VERIF, rrel("replays", prop)) if not RROOT else rrel("replays", prop), ignore_errors=True)
+    os.makedirs(os.path.join(VERIF, rrel("replays", prop)) if not RROOT else rrel("replays", prop), exist_ok=True)
     unit_by_name = {r["unit"]: r for r in results}
     failing = [o for o in obligations if o["status"] != "PROVED"]
     failing.sort(key=lambda o: 0 if o["status"] == "REFUTED" else 1)
@@ -147,7 +149,7 @@ def main(argv=None):
     not_replayed = []
     for k, o in enumerate(failing):
         safe = _re.sub(r"[^A-Za-z0-9._=-]+", "_", o["name"]).strip("_")
-        rpath = os.path.join("replays", prop, safe + ".json")
+        rpath = rrel("replays", prop, safe + ".json")
         ur = unit_by_name.get(o.get("unit"), {})
         failed = o.get("failed", [{}])
         rec = {"property": prop, "obligation": o["name"], "unit": o.get("unit"), "module": ur.get("module"),
